@@ -226,6 +226,12 @@ def execute(mod, tier: str, seed: int) -> int:
     t0 = time.time()
     plan = mod.plan(tier, seed)
     shards = plan["shards"]
+    # smoke run of a large plan (VERIF_SHARD_STRIDE=n): every n-th shard only, so that every kind of shard of a long
+    # thorough plan is exercised in minutes; such a run is never exhaustive and does not apply the vacuity guards
+    stride = int(os.environ.get("VERIF_SHARD_STRIDE", "1"))
+    if stride > 1:
+        shards = shards[::stride]
+        plan = dict(plan, shards=shards, require_nonzero=[], exhaustive=False)
     procs = int(os.environ.get("VERIF_PROCS", os.cpu_count() or 4))
     total = Result()
     args = [(mod.__name__, s, tier, seed) for s in shards]
